@@ -558,6 +558,213 @@ theorem observation_meets_spec (ctx : Ctx) (lim : Limits) (maxLen : Nat) (staged
     exact ⟨⟨trivial, choiceOf_choiceOk _ _ _ nl hl⟩, choiceOf_choiceOk _ _ _ nc hc⟩
   · simp only [historyOk, o, observationOf, decide_eq_true_eq]
 
+
+/-! ### the shuffled-id cache is invisible (state kept across rounds) -/
+
+private theorem step_coherent (shuffle : String → String → String) (src : String) (st : Sorter) (w : String)
+    (hc : st.Coherent shuffle) (hs : st.lastSrc = src) :
+    (st.step shuffle src w).Coherent shuffle ∧ (st.step shuffle src w).lastSrc = src := by
+  unfold Sorter.step
+  split
+  · refine ⟨?_, hs⟩
+    intro e he
+    rcases List.mem_cons.mp he with rfl | he
+    · simp [hs]
+    · exact hc e he
+  · exact ⟨hc, hs⟩
+
+private theorem get_mem {st : Sorter} {w v : String} (h : st.get w = some v) : (w, v) ∈ st.cache := by
+  unfold Sorter.get at h
+  cases hf : st.cache.find? (fun e => e.1 == w) with
+  | none => simp [hf] at h
+  | some e =>
+    simp only [hf, Option.map_some, Option.some.injEq] at h
+    have hm := List.mem_of_find?_eq_some hf
+    have hk := List.find?_some hf
+    simp only [beq_iff_eq] at hk
+    have : e = (w, v) := by cases e; simp_all
+    exact this ▸ hm
+
+private theorem step_get_self (shuffle : String → String → String) (src : String) (st : Sorter) (w : String)
+    (hc : st.Coherent shuffle) (hs : st.lastSrc = src) :
+    (st.step shuffle src w).get w = some (shuffle w src) := by
+  unfold Sorter.step
+  split
+  · simp [Sorter.get]
+  · rename_i h
+    simp only [Bool.not_eq_true, Bool.not_eq_false', Option.isSome_iff_exists] at h
+    obtain ⟨v, hv⟩ := h
+    have := hc _ (get_mem hv)
+    simp only [hs] at this
+    rw [hv, this]
+
+private theorem step_get_keep (shuffle : String → String → String) (src : String) (st : Sorter) (w u : String) (v : String)
+    (hu : st.get u = some v) : (st.step shuffle src w).get u = some v := by
+  unfold Sorter.step
+  split
+  · rename_i h
+    have hne : ¬ w = u := by
+      intro e; subst e
+      simp [hu] at h
+    have hb : (w == u) = false := by simpa using hne
+    simp only [Sorter.get, List.find?_cons, hb]
+    exact hu
+  · exact hu
+
+private theorem foldl_step (shuffle : String → String → String) (src : String) :
+    ∀ (wids : List String) (st : Sorter), st.Coherent shuffle → st.lastSrc = src →
+      (wids.foldl (Sorter.step shuffle src) st).Coherent shuffle ∧
+      (wids.foldl (Sorter.step shuffle src) st).lastSrc = src ∧
+      (∀ u v, st.get u = some v → (wids.foldl (Sorter.step shuffle src) st).get u = some v) ∧
+      ∀ w ∈ wids, (wids.foldl (Sorter.step shuffle src) st).get w = some (shuffle w src)
+  | [], st, hc, hs => ⟨hc, hs, fun _ _ h => h, by simp⟩
+  | w :: ws, st, hc, hs => by
+    have h1 := step_coherent shuffle src st w hc hs
+    have ih := foldl_step shuffle src ws (st.step shuffle src w) h1.1 h1.2
+    simp only [List.foldl_cons]
+    refine ⟨ih.1, ih.2.1, fun u v h => ih.2.2.1 u v (step_get_keep shuffle src st w u v h), ?_⟩
+    intro x hx
+    rcases List.mem_cons.mp hx with rfl | hx
+    · exact ih.2.2.1 _ _ (step_get_self shuffle src st _ hc hs)
+    · exact ih.2.2.2 x hx
+
+private theorem mergeSort_congr {α} (l : List α) (r s : α → α → Bool) (h : ∀ a ∈ l, ∀ b ∈ l, r a b = s a b) :
+    l.mergeSort r = l.mergeSort s := by
+  have := List.map_mergeSort (f := fun (x : α) => x) (l := l) (r := r) (s := s) h
+  simpa using this
+
+/-- the state a fresh hook starts in (`lastRandSrc` all zero, empty map) is coherent, whatever the zero source is called -/
+theorem sorter_initial_coherent (shuffle : String → String → String) (zero : String) :
+    Sorter.Coherent shuffle { lastSrc := zero, cache := [] } := by
+  intro e he; simp at he
+
+/-- **`updateShuffledIDs` keeps the cache coherent and complete**: after the call the cache is labelled with the round's
+source and maps every candidate to the id shuffled with THAT source — whatever was cached before, for every sequence of
+earlier rounds (sources, candidate sets, empty rounds). -/
+theorem sorter_update_coherent (shuffle : String → String → String) (s : Sorter) (hc : s.Coherent shuffle)
+    (src : String) (wids : List String) :
+    (s.update shuffle src wids).Coherent shuffle ∧ (s.update shuffle src wids).lastSrc = src ∧
+      ∀ w ∈ wids, (s.update shuffle src wids).get w = some (shuffle w src) := by
+  have hr : (s.reset src).Coherent shuffle ∧ (s.reset src).lastSrc = src := by
+    unfold Sorter.reset
+    split
+    · exact ⟨by intro e he; simp at he, rfl⟩
+    · rename_i h
+      simp only [Bool.not_eq_true, Bool.not_eq_false', beq_iff_eq] at h
+      exact ⟨hc, h⟩
+  have := foldl_step shuffle src wids (s.reset src) hr.1 hr.2
+  exact ⟨this.1, this.2.1, this.2.2.2⟩
+
+/-- **The memo is invisible.**  From every coherent sorter state `orderResults` returns exactly the stateless canonical
+order of the round (`sortByKey` with the ids shuffled by the round's source) and leaves a coherent state: by induction,
+every observation of every sequence of rounds on one instance uses the canonical order. -/
+theorem sorter_refines_canonical (shuffle : String → String → String) (s : Sorter) (hc : s.Coherent shuffle)
+    (src : String) (rs : List CheckResult) :
+    (s.order shuffle src rs).2 = sortByKey (fun w => shuffle w src) (·.workID) rs ∧
+      (s.order shuffle src rs).1.Coherent shuffle := by
+  have hu := sorter_update_coherent shuffle s hc src (rs.map (·.workID))
+  refine ⟨?_, hu.1⟩
+  show rs.mergeSort (fun a b => !(s.update shuffle src (rs.map (·.workID))).less b a) =
+    rs.mergeSort (fun a b => decide (shuffle a.workID src ≤ shuffle b.workID src))
+  apply mergeSort_congr
+  intro a ha b hb
+  have ga := hu.2.2 a.workID (List.mem_map.mpr ⟨a, ha, rfl⟩)
+  have gb := hu.2.2 b.workID (List.mem_map.mpr ⟨b, hb, rfl⟩)
+  simp only [Sorter.less, ga, gb, Option.getD_some]
+  by_cases h : shuffle b.workID src < shuffle a.workID src
+  · simp [h, String.not_le.mpr h]
+  · simp [h, String.not_lt.mp h]
+
+/-- chains of rounds on one instance: all observations are ordered canonically -/
+theorem sorter_rounds_canonical (shuffle : String → String → String) :
+    ∀ (rounds : List (String × List CheckResult)) (s : Sorter), s.Coherent shuffle →
+      ∀ (pre : List (String × List CheckResult)) (r : String × List CheckResult) (post : List (String × List CheckResult)),
+        rounds = pre ++ r :: post →
+        ((pre.foldl (fun st q => (st.order shuffle q.1 q.2).1) s).order shuffle r.1 r.2).2 =
+          sortByKey (fun w => shuffle w r.1) (·.workID) r.2 := by
+  intro rounds s hc pre r post _
+  have hpre : ∀ (l : List (String × List CheckResult)) (st : Sorter), st.Coherent shuffle →
+      (l.foldl (fun st q => (st.order shuffle q.1 q.2).1) st).Coherent shuffle := by
+    intro l
+    induction l with
+    | nil => intro st h; exact h
+    | cons q qs ih => intro st h; exact ih _ (sorter_refines_canonical shuffle st h q.1 q.2).2
+  exact (sorter_refines_canonical shuffle _ (hpre pre s hc) r.1 r.2).1
+
+/-! ### the model's decisions ARE the expressions of the working tree (`Gen.Src`, regenerated on every run) -/
+
+/-- `if limit > len(results) { limit = len(results) }` -/
+theorem clamp_matches_source (cap n : Nat) :
+    min cap n = if Gen.Src.c08ClampToCandidates cap n then n else cap := by
+  simp only [Gen.Src.c08ClampToCandidates, decide_eq_true_eq]
+  split <;> omega
+
+/-- `performablesK` starts the recursion at the clamped limit -/
+theorem performablesK_matches_source (lim : Limits) (maxLen : Nat) (si : SizeInfo) (c : List CheckResult) :
+    performablesK lim maxLen si c =
+      (let l := if Gen.Src.c08ClampToCandidates lim.obsPerformables c.length then c.length else lim.obsPerformables
+       trim maxLen si.base (sizeOf si c) l l) := by
+  simp only [performablesK, clamp_matches_source]
+
+/-- one call of `addByPercentageExceeded`: the three `if` conditions and the step `limit -= avgPerformablesExceeded + 1`
+in source order.  Go's `limit` is an `int`: the second `limit <= 0` test is on the difference (`Int`), the model's is the
+equivalent `limit ≤ n + 1` on naturals.  (`/`, `-` and `math.Ceil` are outside the translator: `avgSize`/`excess` stay tied by
+the extractor's site expectations and by the exact-length correspondence.) -/
+theorem trim_matches_source (maxLen base : Nat) (size : Nat → Nat) (fuel limit : Nat) :
+    trim maxLen base size (fuel + 1) limit =
+      if Gen.Src.c08LimitExhausted (limit : Int) then 0
+      else if Gen.Src.c08TooLong (size limit) maxLen then
+        (if avgSize base size limit = 0 ∨
+            Gen.Src.c08LimitExhausted ((limit : Int) - (Gen.Src.c08TrimBy (excess maxLen base size limit) : Nat)) then limit
+         else trim maxLen base size fuel (limit - Gen.Src.c08TrimBy (excess maxLen base size limit)))
+      else limit := by
+  simp only [trim, gaveUp, Gen.Src.c08LimitExhausted, Gen.Src.c08TooLong, Gen.Src.c08TrimBy, Bool.or_eq_true,
+    decide_eq_true_eq]
+  have e1 : ((limit : Int) ≤ 0) ↔ limit = 0 := by omega
+  have e2 : ((limit : Int) - ((excess maxLen base size limit + 1 : Nat) : Int) ≤ 0) ↔
+      limit ≤ excess maxLen base size limit + 1 := by omega
+  simp only [e1, e2, decide_eq_true_eq]
+
+/-- the order of the candidates: Go sorts with `less(a, b) = shuffled[a] < shuffled[b]`; the model's comparator is the
+corresponding `≤` -/
+theorem canonical_order_matches_source (key : String → String) (a b : CheckResult) :
+    decide (key a.workID ≤ key b.workID) = !Gen.Src.c08SorterLess (key b.workID) (key a.workID) := by
+  simp only [Gen.Src.c08SorterLess]
+  by_cases h : key b.workID < key a.workID
+  · simp [h, String.not_le.mpr h]
+  · simp [h, String.not_lt.mp h]
+
+theorem sorter_less_matches_source (s : Sorter) (a b : CheckResult) :
+    s.less a b = Gen.Src.c08SorterLess ((s.get a.workID).getD "") ((s.get b.workID).getD "") := rfl
+
+/-- the cache is dropped exactly when the source differs from the one it was filled for … -/
+theorem sorter_reset_matches_source (s : Sorter) (src : String) :
+    s.reset src = if Gen.Src.c08SourceChanged (s.lastSrc == src) then { lastSrc := src, cache := [] } else s := rfl
+
+/-- … and an id is shuffled exactly when it is not cached -/
+theorem sorter_step_matches_source (shuffle : String → String → String) (src : String) (st : Sorter) (w : String) :
+    st.step shuffle src w =
+      if Gen.Src.c08IdNotCached (st.get w).isSome then { st with cache := (w, shuffle w src) :: st.cache } else st := rfl
+
+/-- `AddBlockHistoryHook`: `if len(blockHistory) > limit { blockHistory = blockHistory[:limit] }` -/
+theorem history_matches_source (lim : Limits) (hist : List BlockKey) :
+    hist.take lim.obsBlockHistory =
+      if Gen.Src.c08HistoryOverLimit hist.length lim.obsBlockHistory then hist.take lim.obsBlockHistory else hist := by
+  simp only [Gen.Src.c08HistoryOverLimit, decide_eq_true_eq]
+  split
+  · rfl
+  · exact List.take_of_length_le (by omega)
+
+/-- `AddLogProposalsHook` / `AddConditionalProposalsHook`: `if len(proposals) > limit { proposals = proposals[:limit] }`
+on the shuffled list -/
+theorem proposals_choice_matches_source (limit : Nat) (shuffled : List Proposal) :
+    shuffled.take limit =
+        (if Gen.Src.c08LogProposalsOverLimit shuffled.length limit then shuffled.take limit else shuffled) ∧
+      shuffled.take limit =
+        (if Gen.Src.c08CondProposalsOverLimit shuffled.length limit then shuffled.take limit else shuffled) := by
+  simp only [Gen.Src.c08LogProposalsOverLimit, Gen.Src.c08CondProposalsOverLimit, decide_eq_true_eq]
+  constructor <;> (split; rfl; exact List.take_of_length_le (by omega))
+
 /-! ### non-vacuity -/
 
 private def exR (w : String) : CheckResult :=
